@@ -70,6 +70,12 @@ def gen_instance(rng):
             dims = gen.gen_dims(rng)
         inst = gen.gen_conelp(rng, kind, dims=dims, qp=kind in ('coneqp', 'qp'))
         gen.add_startpoints(rng, inst)
+        r_ = rng.random()
+        if kind in ('conelp', 'lp', 'socp', 'sdp') and r_ < 0.1:
+            inst = gen.make_infeasible(inst)        # the fault-free run ends with a certificate, not an optimum
+        elif kind in ('conelp', 'lp', 'socp', 'sdp') and r_ < 0.2:
+            inst = gen.make_unbounded(inst, rng)
+        inst.pop('planted', None)
     # KKT path
     dims = inst['dims']
     names = [k for k in NAMED[kind] if not (k == 'chol2' and (dims['q'] or dims['s']))]
@@ -581,7 +587,8 @@ def run_unit(seed, tier, r, journal):
     res = {'evaluations': 0, 'nontrivial_digests': [], 'stats': stats, 'violations': [], 'samples': [], 'digest': None}
     bump('instances')
     bump('instances.' + inst['kind'])
-    if base['exc'] is not None or base['status'] != 'optimal':
+    certificate = (inst.get('infeasible') and base['status'] == 'primal infeasible') or (inst.get('unbounded') and base['status'] == 'dual infeasible')
+    if base['exc'] is not None or (base['status'] != 'optimal' and not certificate):
         # degenerate instance (rank-deficient by chance, or the fault-free run itself does not converge):
         # the oracles are stated relative to a fault-free optimum, nothing to enumerate
         bump('instances.degenerate')
